@@ -138,7 +138,7 @@ class Violation:
         self.entry, self.n = res.entry, res.n
         self.witness = list(witness if witness is not None else res.witness)
         self.script = res.script if script is None else script
-        self.gtext = g.text(); self.family = g.meta.get('family')
+        self.gtext = g.text(); self.family = g.meta.get('family'); self.dynskip = g.meta.get('dynskip')
         self.confirmed = None; self.native = None; self.report_as = None
         self._res = res
     def asdict(self): return {k: v for k, v in self.__dict__.items() if not k.startswith('_')}
@@ -174,6 +174,17 @@ def flat_check(nodes, i, limit):
         else: j += 1
     return None
 
+def dyn_skipped(log):
+    """positions the environment's predicate_skip override declared skipped (kind 6 events)"""
+    last = {}
+    for e in log or ():
+        if e[0] == 6:
+            # tokens are scanned in increasing order: a question about position p voids every answer for positions >= p
+            # (the parser went back; those tokens are scanned again or end up, unasked, in the trailing error node)
+            for q in [q for q in last if q >= e[3]]: del last[q]
+            last[e[3]] = bool(e[1])
+    return {p for p, v in last.items() if v}
+
 def eval_c02(g, h, cx, res, out):
     if res.status != 'ok' or res.walk_err is not None: return
     nodes = res.nodes
@@ -182,7 +193,9 @@ def eval_c02(g, h, cx, res, out):
     m = flat_check(nodes, 0, len(nodes) - 1)
     if m: out.append(Violation('C02', 'extent', g, res, m)); return
     pc0 = cx.pc(res)
+    dyn = dyn_skipped(res.log)
     for pc, triv in cx.trivia_cases(res, pc0):
+        if dyn: triv = [bool(t) or (i in dyn) for i, t in enumerate(triv)]
         if _c02_tree(g, h, cx, res, out, pc, triv): return
     # node-created callbacks: announced kind present, extent closed inside the vector at the time of the call
     for e in res.log:
@@ -316,7 +329,7 @@ def grammar_job(args):
                stats=dict(explored_paths=0, reused_paths=0, steps=0, queries=0, solver_time=0.0, fns=set(), models=set()),
                prop_queries=0, prop_time=0.0, classes=0)
     try:
-        h, err = harness.make_harness(g.text())
+        h, err = harness.make_harness(g.text(), dynskip=g.meta.get('dynskip'))
         if h is None:
             out['reason'] = err[0] + ': ' + (err[1] or '').strip().split('\n')[0][:200]
             return out
@@ -332,6 +345,7 @@ def grammar_job(args):
             if name == 'C04auto':
                 name = 'C04p' if (g.features() & {'choice', 'ptrue'}) else 'C04'
             if name in ('C04', 'C04p', 'C05') and (g.features() & {'pred', 'assert'}): continue
+            if g.meta.get('dynskip') and name not in ('C01', 'C02', 'C03'): continue     # dynamic skipping: tree shape and termination only
             f = EVALS[name]
             if relabel:
                 def wrap(f=f, relabel=relabel):
@@ -437,6 +451,7 @@ def native_holds(h, g, prop, entry, witness, o):
     if prop == 'C02':
         if o['walk'] == 'PANIC': return None
         nodes = [tuple(x) for x in o['nodes']]
+        dyn = dyn_skipped(o.get('log'))
         if nodes[0][0] != 'R' or nodes[0][2] != len(nodes) - 1 or flat_check(nodes, 0, len(nodes) - 1): return False
         def rec(w, root):
             if w[0] == 'T': return True
@@ -448,7 +463,7 @@ def native_holds(h, g, prop, entry, witness, o):
                 if not rec(c, False): return False
             if not root and w[4]:
                 for c in (w[4][0], w[4][-1]):
-                    if c[0] == 'T' and c[1] in skipset: return False
+                    if c[0] == 'T' and (c[1] in skipset or c[2] in dyn): return False
             return True
         if not rec(o['walk'], True): return False
         for e in o['log']:
